@@ -603,7 +603,7 @@ fn record(
         ));
     }
     // a few actual runs, written out (chosen by index pattern, not by a random draw)
-    if (i < 3 || i % 9973 == 0) && st.samples.len() < 6 {
+    if (i < 2 || i % 9973 == 0) && st.samples.iter().filter(|x| x.get("phase").and_then(|p| p.as_str()) == Some(pname)).count() < 2 {
         st.samples.push(
             J::obj()
                 .with("phase", J::s(pname))
